@@ -136,29 +136,29 @@ fn revoke_contract<const TABLE: u8, const L: usize, const NEIGH: bool>()
 #[kani::proof] #[kani::unwind(6)] fn k_cache_revoke_despawn_l2() { revoke_contract::<3, 2, true>(); }
 //# id=K.cache.revoke.despawn.L3 props=C06,C01 strength=bounded shape="list of length L=3 under the key, all ids symbolic; neighbour key and the 6 other lists hold one entry of the same id" tier=thorough fns=ReactCache::revoke_despawn_reactor
 #[kani::proof] #[kani::unwind(6)] fn k_cache_revoke_despawn_l3() { revoke_contract::<3, 3, true>(); }
-//# id=K.cache.revoke.comp_insertion.L0 props=C06,C01 strength=bounded shape="list of length L=0 under the key, all ids symbolic; neighbour key and the 6 other lists hold one entry of the same id" tier=thorough fns=ReactCache::revoke_component_reactor
+//# id=K.cache.revoke.comp_insertion.L0 props=C06,C01,C07 strength=bounded shape="list of length L=0 under the key, all ids symbolic; neighbour key and the 6 other lists hold one entry of the same id" tier=thorough fns=ReactCache::revoke_component_reactor
 #[kani::proof] #[kani::unwind(6)] fn k_cache_revoke_comp_insertion_l0() { revoke_contract::<4, 0, true>(); }
-//# id=K.cache.revoke.comp_insertion.L1 props=C06,C01 strength=bounded shape="list of length L=1 under the key, all ids symbolic; neighbour key and the 6 other lists hold one entry of the same id" tier=quick fns=ReactCache::revoke_component_reactor
+//# id=K.cache.revoke.comp_insertion.L1 props=C06,C01,C07 strength=bounded shape="list of length L=1 under the key, all ids symbolic; neighbour key and the 6 other lists hold one entry of the same id" tier=quick fns=ReactCache::revoke_component_reactor
 #[kani::proof] #[kani::unwind(6)] fn k_cache_revoke_comp_insertion_l1() { revoke_contract::<4, 1, true>(); }
-//# id=K.cache.revoke.comp_insertion.L2 props=C06,C01 strength=bounded shape="list of length L=2 under the key, all ids symbolic; neighbour key and the 6 other lists hold one entry of the same id" tier=quick fns=ReactCache::revoke_component_reactor
+//# id=K.cache.revoke.comp_insertion.L2 props=C06,C01,C07 strength=bounded shape="list of length L=2 under the key, all ids symbolic; neighbour key and the 6 other lists hold one entry of the same id" tier=quick fns=ReactCache::revoke_component_reactor
 #[kani::proof] #[kani::unwind(6)] fn k_cache_revoke_comp_insertion_l2() { revoke_contract::<4, 2, true>(); }
-//# id=K.cache.revoke.comp_insertion.L3 props=C06,C01 strength=bounded shape="list of length L=3 under the key, all ids symbolic; neighbour key and the 6 other lists hold one entry of the same id" tier=thorough fns=ReactCache::revoke_component_reactor
+//# id=K.cache.revoke.comp_insertion.L3 props=C06,C01,C07 strength=bounded shape="list of length L=3 under the key, all ids symbolic; neighbour key and the 6 other lists hold one entry of the same id" tier=thorough fns=ReactCache::revoke_component_reactor
 #[kani::proof] #[kani::unwind(6)] fn k_cache_revoke_comp_insertion_l3() { revoke_contract::<4, 3, true>(); }
-//# id=K.cache.revoke.comp_mutation.L0 props=C06,C01 strength=bounded shape="list of length L=0 under the key, all ids symbolic; neighbour key and the 6 other lists hold one entry of the same id" tier=thorough fns=ReactCache::revoke_component_reactor
+//# id=K.cache.revoke.comp_mutation.L0 props=C06,C01,C07 strength=bounded shape="list of length L=0 under the key, all ids symbolic; neighbour key and the 6 other lists hold one entry of the same id" tier=thorough fns=ReactCache::revoke_component_reactor
 #[kani::proof] #[kani::unwind(6)] fn k_cache_revoke_comp_mutation_l0() { revoke_contract::<5, 0, true>(); }
-//# id=K.cache.revoke.comp_mutation.L1 props=C06,C01 strength=bounded shape="list of length L=1 under the key, all ids symbolic; neighbour key and the 6 other lists hold one entry of the same id" tier=quick fns=ReactCache::revoke_component_reactor
+//# id=K.cache.revoke.comp_mutation.L1 props=C06,C01,C07 strength=bounded shape="list of length L=1 under the key, all ids symbolic; neighbour key and the 6 other lists hold one entry of the same id" tier=quick fns=ReactCache::revoke_component_reactor
 #[kani::proof] #[kani::unwind(6)] fn k_cache_revoke_comp_mutation_l1() { revoke_contract::<5, 1, true>(); }
-//# id=K.cache.revoke.comp_mutation.L2 props=C06,C01 strength=bounded shape="list of length L=2 under the key, all ids symbolic; neighbour key and the 6 other lists hold one entry of the same id" tier=quick fns=ReactCache::revoke_component_reactor
+//# id=K.cache.revoke.comp_mutation.L2 props=C06,C01,C07 strength=bounded shape="list of length L=2 under the key, all ids symbolic; neighbour key and the 6 other lists hold one entry of the same id" tier=quick fns=ReactCache::revoke_component_reactor
 #[kani::proof] #[kani::unwind(6)] fn k_cache_revoke_comp_mutation_l2() { revoke_contract::<5, 2, true>(); }
-//# id=K.cache.revoke.comp_mutation.L3 props=C06,C01 strength=bounded shape="list of length L=3 under the key, all ids symbolic; neighbour key and the 6 other lists hold one entry of the same id" tier=thorough fns=ReactCache::revoke_component_reactor
+//# id=K.cache.revoke.comp_mutation.L3 props=C06,C01,C07 strength=bounded shape="list of length L=3 under the key, all ids symbolic; neighbour key and the 6 other lists hold one entry of the same id" tier=thorough fns=ReactCache::revoke_component_reactor
 #[kani::proof] #[kani::unwind(6)] fn k_cache_revoke_comp_mutation_l3() { revoke_contract::<5, 3, true>(); }
-//# id=K.cache.revoke.comp_removal.L0 props=C06,C01 strength=bounded shape="list of length L=0 under the key, all ids symbolic; neighbour key and the 6 other lists hold one entry of the same id" tier=thorough fns=ReactCache::revoke_component_reactor
+//# id=K.cache.revoke.comp_removal.L0 props=C06,C01,C07 strength=bounded shape="list of length L=0 under the key, all ids symbolic; neighbour key and the 6 other lists hold one entry of the same id" tier=thorough fns=ReactCache::revoke_component_reactor
 #[kani::proof] #[kani::unwind(6)] fn k_cache_revoke_comp_removal_l0() { revoke_contract::<6, 0, true>(); }
-//# id=K.cache.revoke.comp_removal.L1 props=C06,C01 strength=bounded shape="list of length L=1 under the key, all ids symbolic; neighbour key and the 6 other lists hold one entry of the same id" tier=quick fns=ReactCache::revoke_component_reactor
+//# id=K.cache.revoke.comp_removal.L1 props=C06,C01,C07 strength=bounded shape="list of length L=1 under the key, all ids symbolic; neighbour key and the 6 other lists hold one entry of the same id" tier=quick fns=ReactCache::revoke_component_reactor
 #[kani::proof] #[kani::unwind(6)] fn k_cache_revoke_comp_removal_l1() { revoke_contract::<6, 1, true>(); }
-//# id=K.cache.revoke.comp_removal.L2 props=C06,C01 strength=bounded shape="list of length L=2 under the key, all ids symbolic; neighbour key and the 6 other lists hold one entry of the same id" tier=quick fns=ReactCache::revoke_component_reactor
+//# id=K.cache.revoke.comp_removal.L2 props=C06,C01,C07 strength=bounded shape="list of length L=2 under the key, all ids symbolic; neighbour key and the 6 other lists hold one entry of the same id" tier=quick fns=ReactCache::revoke_component_reactor
 #[kani::proof] #[kani::unwind(6)] fn k_cache_revoke_comp_removal_l2() { revoke_contract::<6, 2, true>(); }
-//# id=K.cache.revoke.comp_removal.L3 props=C06,C01 strength=bounded shape="list of length L=3 under the key, all ids symbolic; neighbour key and the 6 other lists hold one entry of the same id" tier=thorough fns=ReactCache::revoke_component_reactor
+//# id=K.cache.revoke.comp_removal.L3 props=C06,C01,C07 strength=bounded shape="list of length L=3 under the key, all ids symbolic; neighbour key and the 6 other lists hold one entry of the same id" tier=thorough fns=ReactCache::revoke_component_reactor
 #[kani::proof] #[kani::unwind(6)] fn k_cache_revoke_comp_removal_l3() { revoke_contract::<6, 3, true>(); }
 
 // ===============================================================================================================
@@ -300,3 +300,45 @@ fn entity_reaction_contract<const MUTATION: bool, const S: usize, const W: usize
 #[kani::proof] #[kani::unwind(8)] fn k_dispatch_insertion_s1w1() { entity_reaction_contract::<false, 1, 1, true, true>(); }
 //# id=K.dispatch.insertion.nocomp props=C14,C18 strength=bounded shape="entity does NOT carry React<C> (despawned before the insert was applied); 1 scoped + 1 type-wide insertion listener registered" tier=quick fns=ReactCache::schedule_insertion_reaction
 #[kani::proof] #[kani::unwind(8)] fn k_dispatch_insertion_nocomp() { entity_reaction_contract::<false, 1, 1, true, false>(); }
+
+// ---------------------------------------------------------------------------------------------------------------
+// K.dispatch.despawn: schedule_despawn_reactions (C08, C07): for every entity reported on the despawn channel the map
+// entry is CONSUMED and exactly one Despawn command per stored handle is queued (carrying that handle, in order, with the
+// despawned entity as source); entities without entry are ignored; a second poll queues nothing (at most once).
+// Shape: 2 handles stored for e (ids symbolic), one handle for a bystander entity that is not reported; e reported ONCE / TWICE.
+// ---------------------------------------------------------------------------------------------------------------
+fn despawn_dispatch_contract<const REPORTS: usize>() {
+    let mut world = World::new();
+    let mut cache = ReactCache::default();
+    let e = Entity::verif_new(7, 1);
+    let stranger = Entity::verif_new(9, 1);     // reported, but nobody listens
+    let by = Entity::verif_new(8, 1);           // listened to, but not reported
+    let (a, b) = (any_sys(), any_sys());
+    let mut l = Vec::with_capacity(2); l.push(h(a)); l.push(h(b));
+    cache.despawn_reactors.insert(e, l);
+    cache.despawn_reactors.insert(by, one(fixed_sys(5)));
+    let tx = cache.despawn_sender();
+    let _ = tx.send(stranger);
+    let mut i = 0; while i < REPORTS { let _ = tx.send(e); i += 1; }
+    cache.schedule_despawn_reactions(&mut world);
+    let q = world.verif_world_queue();
+    assert!(q.verif_pending() == 2, "schedule_despawn_reactions: exactly one Despawn command per handle stored for a reported entity, at most once per entity");
+    let mut k = 0;
+    while k < 2 {
+        match q.verif_peek::<ReactionCommand>(k) {
+            Some(ReactionCommand::Despawn{ reaction_source, reactor, handle }) =>
+                assert!(*reaction_source == e && *reactor == (if k == 0 { a } else { b }) && handle.sys_command() == *reactor, "schedule_despawn_reactions: commands carry the despawned entity, the registered reactor and its handle, in registration order"),
+            _ => assert!(false, "schedule_despawn_reactions: queues Despawn commands"),
+        }
+        k += 1;
+    }
+    assert!(cache.despawn_reactors.get(&e).is_none(), "schedule_despawn_reactions: the entry of a despawned entity is consumed (fires at most once)");
+    assert!(len_of(cache.despawn_reactors.get(&by)) == 1, "schedule_despawn_reactions: entities that were not reported keep their reactors");
+    cache.schedule_despawn_reactions(&mut world);
+    assert!(world.verif_world_queue().verif_pending() == 2, "schedule_despawn_reactions: a second poll queues nothing");
+    core::mem::forget(tx); core::mem::forget(cache); core::mem::forget(world);
+}
+//# id=K.dispatch.despawn.once props=C08,C07 strength=bounded shape="entity with 2 despawn reactors reported once; a reported entity without reactors; an unreported entity with a reactor" tier=off fns=ReactCache::schedule_despawn_reactions
+#[kani::proof] #[kani::unwind(8)] fn k_dispatch_despawn_once() { despawn_dispatch_contract::<1>(); }
+//# id=K.dispatch.despawn.twice props=C08,C07 strength=bounded shape="same, the entity is reported twice before the poll" tier=off fns=ReactCache::schedule_despawn_reactions
+#[kani::proof] #[kani::unwind(8)] fn k_dispatch_despawn_twice() { despawn_dispatch_contract::<2>(); }
